@@ -67,6 +67,8 @@ PRELUDE = r'''
   (put res :reallib (quiet |(ffi/native "libm.so.6")))
   (put res :ptrs (quiet |(seq [i :range [0 12]] (ffi/malloc 32))))
   (put res :keep (quiet |(ffi/malloc 64)))
+  # a signal handler installed before anything is disabled: replacing it later is still a :signal operation
+  (put res :handler (quiet |(do (os/sigaction :usr2 (fn [s] nil)) true)))
   (put res :watcher (quiet |(filewatch/new (ev/chan 8))))
   (put res :dgram (quiet |(net/listen :unix (string "@jsim-c18-" (in cfg :tag)) :datagram)))
   (put res :addr (quiet |(net/address :unix (string "@jsim-c18-peer-" (in cfg :tag)) :datagram false)))
@@ -239,6 +241,8 @@ PRELUDE = r'''
 (S "lib/os-env-roundtrip" nil (fn [r] (os/setenv "SIM_MARKER_VAR" "1") (os/getenv "SIM_MARKER_VAR")))
 (S "lib/os-unsetenv" nil (fn [r] (os/setenv "SIM_MARKER_VAR" nil)))
 (S "lib/os-sigaction" nil (fn [r] (os/sigaction (pick r sig-kws) (fn [s] nil) (chance r 0.3))))
+(S "os/sigaction" :signal (fn [r] (need :handler) (os/sigaction :usr2 (fn [s] :replaced))))
+(S "os/sigaction" :signal (fn [r] (need :handler) (os/sigaction :usr2 (fn [s] :replaced) true)))
 (S "lib/os-sigaction-remove" nil (fn [r] (os/sigaction (pick r sig-kws))))
 (S "lib/filewatch-new-add" nil (fn [r] (filewatch/add (filewatch/new (ev/chan 1)) (rp r) :all)))
 (S "lib/os-clock" nil (fn [r] (os/clock (pick r [:realtime :monotonic :cputime]) (pick r [:double :tuple :double]))))
